@@ -637,7 +637,7 @@ fn main() {
         // two data lengths per part count: just into the last part, and full
         let dlens: Vec<usize> = if n == 1 { vec![1, 900] } else { vec![900 * (n - 1) + 1, 900 * n] };
         for (di, dl) in dlens.iter().enumerate() {
-            if di == 1 && n > all_upto {
+            if di == 1 && n >= all_upto {
                 continue;
             }
             let d = data_gen(n as u64 * 10 + di as u64, *dl);
@@ -667,16 +667,16 @@ fn main() {
     // ---- sampled orders for larger part counts, with duplicates, omissions, older ticks interleaved
     let nsample = if th { 100_000 } else { 2000 };
     for k in 0..nsample {
-        // quick: uniform over 6..32 parts; thorough: 10^5 orders, skewed to the smaller part counts
-        // (the list-based model is quadratic in the number of parts)
-        let n = if k % 16 == 0 {
+        // 6..32 parts, skewed to the smaller part counts (the list-based model is quadratic in the
+        // number of parts); every 16th order has the full 32 parts
+        let n = if k % (if th { 64 } else { 16 }) == 0 {
             32
-        } else if !th {
-            r.range(6, 32) as usize
         } else {
-            match r.below(10) {
-                0..=5 => r.range(6, 10) as usize,
-                6..=7 => r.range(11, 20) as usize,
+            match r.below(20) {
+                0..=11 => r.range(6, 10) as usize,
+                12..=15 if th => r.range(6, 10) as usize,
+                12..=15 => r.range(11, 20) as usize,
+                16..=18 if th => r.range(11, 20) as usize,
                 _ => r.range(21, 32) as usize,
             }
         };
